@@ -235,7 +235,7 @@ class Env:
         dsrc = {f[0]: (f[3] if len(f) > 3 else ("7" if f[1]["k"] == "classvar" else "None")) for f in d["fields"]}
         # a class with a base of the table only declares the fields its base does not have
         base = d.get("base")
-        bases = f"({self.defs[base].get('py', base)})" if base else ""
+        bases = "(" + self.render({"k": "cls", "c": base}, home) + ")" if base else ""       # (module-qualified when the base lives elsewhere)
         if base:
             inherited = {f[0] for f in self.defs[base]["fields"]}
             fields = [f for f in fields if f[0] not in inherited]
